@@ -42,7 +42,8 @@ Inductive op :=
 | ODrop (k : nat)                              (* proxy k is deleted *)
 | OStore (k c t : nat)                         (* proxy k is stored in hosted container c (passed to the server and kept there) *)
 | ORemove (k p : nat) (keep : bool) (t : nat)  (* the stored proxy k is popped and returned to process p, which keeps or drops it *)
-| OExit (p : nat).                             (* client process p exits *)
+| OExit (p : nat)                              (* client process p exits *)
+| OFailWith (k : nat).                         (* proxy k is passed as an argument to a hosted method that raises *)
 
 Definition TMP := 0.     (* tag of the one temporary reference an operation may create; harness tags start at 1 *)
 
@@ -176,6 +177,13 @@ Definition step (g : cfg) (s : state) (o : op) : state :=
       end
   | OExit p =>
       fold_left (fun s' r => if exitfin g then drop_ref s' r else forget s' (r_tag r)) (filter (proc_of p) (refs s)) s
+  | OFailWith k =>
+      (* the argument is pickled (incref); the server rebuilds it (incref, then the compensating decref); the method raises;
+         the server's argument proxy is finalized as soon as the call has ended (after the repair of the reference cycles) *)
+      match find_ref k (refs s) with
+      | Some r => if is_proc (r_h r) then release (acquire s TMP HTemp (r_id r)) TMP else bad s
+      | None => bad s
+      end
   end.
 
 Definition run (g : cfg) (ops : list op) : state := fold_left (step g) ops init.
